@@ -121,8 +121,9 @@ CLAIMS = {
        "a BadValue or a failing recursive conversion is an error.",
   note="Plus Kani/CBMC on the pointer string itself: Path::extend_str on pointers of 0..2 bytes and keys of 0..2 bytes (symbolic "
        "ASCII, any line/col) returns pointer + '/' + key byte for byte - also for the EMPTY key - and keeps the position; "
-       "with_location replaces the position and keeps the pointer. This is the path/position ATTACHMENT step only. NOT covered: "
-       "extend_usize's number formatting, longer / non-ASCII keys, libyaml marks -> Location, that comparison results and the report builder keep "
+       "with_location replaces the position and keeps the pointer; extend_usize renders every index < 100 in decimal (and, on MIR, always "
+       "appends exactly one segment produced by the standard integer formatting). This is the path/position ATTACHMENT step only. NOT covered: "
+       "longer / non-ASCII keys, indices >= 100, libyaml marks -> Location, that comparison results and the report builder keep "
        "the values' paths (operators.rs clones, eval_context.rs report builder), unresolved `traversed_to` / `remaining_query`. No Kani "
        "harness serves this property in the quick tier.",
   design="0b/C10"),
